@@ -22,6 +22,8 @@ def handleShape (j : Json) : Except String Json := do
     ("shape", match Shape.shapeFile s with | some sh => shapeJson sh | none => Json.null),
     ("deviations", IO.Sql.jstrs (Spec.deviations s)),
     ("classes", IO.Sql.jstrs (Spec.Agreement.classes s))])
-  pure <| Json.mkObj [("out", .arr out.toArray)]
+  let pairs (l : List (String × String)) : Json := .arr (l.map (fun p => Json.arr #[.str p.1, .str p.2])).toArray
+  pure <| Json.mkObj [("out", .arr out.toArray), ("stmt_type_aliases", pairs Shape.stmtTypeAliases),
+    ("stmt_type_unclaimed", pairs Shape.stmtTypeUnclaimed)]
 
 end SqlLineage.IO.Shape
